@@ -116,6 +116,23 @@ func newScene(rng *rand.Rand) *scene {
 	return s
 }
 
+// freshAnn lets P announce itself again and returns the frame as it would reach V.
+func (s *scene) freshAnn() []byte {
+	s.ms.W.Inflight = nil
+	_ = s.p.Rt.AnnouncePing.Send(s.v.ID.IP)
+	var out []byte
+	for _, fl := range s.ms.W.Inflight {
+		if fl.To == s.v {
+			out = append([]byte(nil), fl.Data...)
+		}
+	}
+	s.ms.W.Inflight = nil
+	if out == nil {
+		return s.annFrame
+	}
+	return out
+}
+
 // routeToX (re-)installs V's route to X through Q.
 func (s *scene) routeToX() {
 	hops := []m.SwitchHop{{Router: s.v.ID.IP, ForwardLabel: s.v.LinkTo(s.q).SwitchLabel()}, {Router: s.q.ID.IP, ForwardLabel: 77, ReturnLabel: 66}, {Router: s.x.ID.IP, ReturnLabel: 88}}
@@ -365,8 +382,30 @@ func (s *scene) gen(kind string, n int) (out [][]byte, notes []string) {
 			}
 			b, err := s.seal(P, V, mt, nil, pingMsg(h, body), nil)
 			add(b, err, kind+" "+pt)
+		case "raw-oversized":
+			// a signed ping assembled by hand (the peer's builder refuses messages beyond 10000 bytes, an attacker's does
+			// not): every ping type, request and follow-up, with one body field carrying a malformed / huge value
+			pt := pingTypes[i%5]
+			h := s.hdr(pt, uint8(rng.Intn(8)), i%2 == 1)
+			keys := []string{"msg", "kx", "kxt", "mtu", "err", "off", "d", "zz"}
+			body := map[string]any{"msg": "ping", "kx": randBytes(rng, 32), "kxt": "ECDH-X25519", "mtu": 1400}
+			k := keys[rng.Intn(len(keys))]
+			val, vdesc := weird(rng)
+			if i%3 == 0 {
+				am := amplifiers[rng.Intn(len(amplifiers))]
+				val, vdesc = am.v, am.desc
+			}
+			body[k] = val
+			bd, err := cbor.Marshal(body)
+			if err == nil {
+				msg := pingMsg(h, bd)
+				if len(msg) > 65000 {
+					msg = msg[:65000]
+				}
+				add(rawSigned(s.p.ID, P, V, msg, s.p.St.GetSession(V).Signing().Seq().Next()), nil, fmt.Sprintf("%s ping (follow-up %v), field %q = %s", pt, i%2 == 1, k, vdesc))
+			}
 		case "hopchain-truncated", "hopchain-deep", "hopchain-random", "hopchain-oversized":
-			base := s.annFrame
+			base := s.freshAnn() // signed afresh by its origin: an old one is refused by the time-stamp order before its chain is looked at
 			mi := 49 + int(base[48])
 			ml := int(base[mi])<<8 | int(base[mi+1])
 			apxFrom := mi + 2 + ml + 64
@@ -396,8 +435,17 @@ func (s *scene) gen(kind string, n int) (out [][]byte, notes []string) {
 				}
 				na = inner
 			}
-			b := append(append([]byte(nil), base[:apxFrom]...), na...)
-			add(b, nil, kind)
+			// the announcement is sealed again by its origin on the time sequence of its other frames for the victim (the
+			// long-lived router has seen thousands of signed frames of P: an announcement stamped by another sequence
+			// of P would be refused as delayed before its chain is looked at); the chain is not authenticated by it
+			var dst [16]byte
+			copy(dst[:], base[32:48])
+			b, err := s.seal(P, netip.AddrFrom16(dst), frame.MessageType(base[4]), nil, base[mi+2:mi+2+ml], nil)
+			if err == nil {
+				b = append(b, na...)
+			}
+			_ = apxFrom
+			add(b, err, kind)
 		case "traffic-nokeys":
 			// traffic that claims a router the victim knows but shares no end-to-end keys with and has no route to:
 			// the frame cannot be unsealed AND the "no encryption keys" error cannot be sent back
@@ -964,8 +1012,17 @@ func run(c *vf.Ctx) {
 		}
 	}
 	for _, kind := range classes["link-mid"] {
-		for i := 0; i < lper; i++ {
-			out, detail, in := linkMid(rng, kind)
+		n := lper
+		if kind == "signed-fields" {
+			n = len(signedFields)*len(amplifiers) + c.Pick(100, 4000)
+		}
+		for i := 0; i < n; i++ {
+			var out, detail, in string
+			if kind == "signed-fields" {
+				out, detail, in = linkSigned(rng, i)
+			} else {
+				out, detail, in = linkMid(rng, kind)
+			}
 			record(obs{Stage: "link-mid", Kind: kind, Outcome: out, Alive: true, Detail: firstLine(detail), Input: in})
 			if out == "panic" || out == "stalled" {
 				c.Logf("link-mid/%s: %s: %s", kind, out, firstLines(detail, 12))
@@ -996,6 +1053,22 @@ func run(c *vf.Ctx) {
 	for _, o := range all {
 		byOutcome[o.Outcome]++
 		seenClass[o.Stage+"/"+o.Kind] = true
+	}
+	delayed := map[string]int{}
+	for _, o := range all {
+		if strings.Contains(o.Detail, "delayed frame") || strings.Contains(o.Detail, "duplicate frame") {
+			delayed[o.Stage+"/"+o.Kind]++
+		}
+	}
+	c.Extra("refused_by_replay_protection", delayed)
+	perClass := map[string]int{}
+	for _, o := range all {
+		perClass[o.Stage+"/"+o.Kind]++
+	}
+	for cl, n := range delayed {
+		if strings.HasPrefix(cl, "sealed/") && 2*n > perClass[cl] {
+			c.Broken("class %s: %d of %d inputs were refused by the replay protection and never reached the code the class is about", cl, n, perClass[cl])
+		}
 	}
 	c.Extra("outcomes", byOutcome)
 	c.Extra("classes_exercised", len(seenClass))
